@@ -168,13 +168,28 @@ def write_via(g, via):
             open(path, 'wb').write(b'old contents much longer than nothing\n' * 4000)
             p8file.to_file(g, path)
             return open(path, 'rb').read()
-        if via == 'cli':
+        if via in ('cli', 'cli-debug'):
             src = os.path.join(d, 'in.p8')
             p8file.to_file(g, src)
-            rcode = tool.main(['writep8', src])
+            from pico8 import util
+            old_verb = util._verbosity
+            try:
+                rcode = tool.main((['--debug'] if via == 'cli-debug' else []) + ['writep8', src])
+            finally:
+                util.set_verbosity(old_verb)
             if rcode != 0:
                 raise RuntimeError('p8tool writep8 returned %r' % rcode)
             return open(os.path.join(d, 'in_fmt.p8'), 'rb').read()
+        if via == 'file-debug':
+            from pico8 import util
+            old_verb = util._verbosity
+            util.set_verbosity(util.VERBOSITY_DEBUG)
+            try:
+                path = os.path.join(d, 'out.p8')
+                p8file.to_file(g, path)
+                return open(path, 'rb').read()
+            finally:
+                util.set_verbosity(old_verb)
         raise ValueError(via)
     finally:
         shutil.rmtree(d, ignore_errors=True)
@@ -246,13 +261,17 @@ def lua_sources(tier):
         out.append(('final-' + name, b'x=1' + tail))
     # lines that contain a section-header-like word but do not READ as a header (a header line is exactly
     # '__name__' + LF): valid Lua that starts with / contains __name__
-    for nm in (b'lua', b'gfx', b'label', b'gff', b'map', b'sfx', b'music', b'init', b'x1'):
+    for nm in (b'lua', b'gfx', b'label', b'gff', b'map', b'sfx', b'music', b'init', b'x1', b'\x9a', b'g\x89x', b'\x95\xfd'):
         w = b'__' + nm + b'__'
         forms = [w + b'=1\n', w + b'x=2\n', w + b'w,' + w + b'h=128,32\n', b' ' + w + b'=1\n', b'x=' + w + b'\n',
                  b'--' + w + b'\n', b'x=[[\n' + w + b' holds\n]]\n', b'--[[\n' + w + b'.\n]]\n', w + b'()\n',
                  w[:-1] + b'=1\n', w[1:] + b'=1\n']
         for fi, form in enumerate(forms):
-            out.append(('near-header-%s-%d' % (nm.decode(), fi), b'a=1\n' + form + b'z=3\n'))
+            out.append(('near-header-%s-%d' % (nm.decode('latin-1'), fi), b'a=1\n' + form + b'z=3\n'))
+        if any(c >= 0x80 for c in nm):
+            # between the underscores only glyphs: not an (ASCII) section name, so the line is Lua text - in a long
+            # comment and as an identifier statement
+            out.append(('glyph-header-like-%s' % nm.decode('latin-1'), b'a=1\n--[[\n' + w + b'\n]]\nz=3\n'))
     return out
 
 
@@ -316,7 +335,7 @@ def run_shard(item):
         if item[2] == 0:
             res.sample({'family': 'pairs', 'source_prefix': src[:24]})
     elif kind == 'via':
-        for j, via in enumerate(('file', 'file-existing', 'cli')):
+        for j, via in enumerate(('file', 'file-existing', 'cli', 'file-debug', 'cli-debug')):
             for i in (1, 2, 6):
                 fills, label = region_cart(i, item[1])
                 roundtrip(fills, label, 33, b'-- t\n-- a\nfunction f(x) return x*2 end\nprint(f(%d))' % i, res,
